@@ -158,7 +158,8 @@ def run(limit=None):
             if got != l[a:b:-1]:
                 bad.append(('list-slice-rev', l, a, b, got, l[a:b:-1]))
     # strip family: the light axioms must be satisfied by CPython's result (consistency, not equality)
-    for s in ['', ' ', ' a ', '\t>x\n', '\n', 'a', '  ', ' \x0b a']:
+    ex.blank_axiom = True      # the optional "all strippable characters -> empty result" fact is checked as well
+    for s in ['', ' ', ' a ', '\t>x\n', '\n', 'a', '  ', ' \x0b a', '    ', ' \n', '\u00a0 ', '\n\n', ' \t\n\r\x0c']:
         for name, chars in (('strip', None), ('lstrip', None), ('rstrip', None), ('lstrip', ' '), ('strip', '\n')):
             st2 = State()
             st2.alloc = z3.IntVal(0)
